@@ -1667,8 +1667,20 @@ Proof.
   unfold with_carrier. cbn [car_memo set_rpc_log set_car_memo]. congruence.
 Qed.
 
+(* the predicate holds after a normal return, and an abort happens only at a site in S *)
+Definition pres2 {A} (P : tower -> Prop) (S : site -> Prop) (r : res A) : Prop :=
+  match r with Ok _ t => P t | Abort s _ => S s end.
+
+Lemma pres2_bind {A B} (P : tower -> Prop) (S : site -> Prop) (r : res A) (f : A -> tower -> res B) :
+  pres2 P S r -> (forall a t, P t -> pres2 P S (f a t)) -> pres2 P S (bind r f).
+Proof. destruct r as [a t|s t]; cbn; auto. Qed.
+
+Lemma pres2_pres {A} (P : tower -> Prop) (r : res A) : pres2 P (fun _ => True) r -> pres P r.
+Proof. destruct r; exact (fun H => H). Qed.
+
 Section W.
   Context (P : tower -> Prop) (HW : StableW P).
+  Context (S : site -> Prop) (HSite : forall s, s <> S_r_confirmations_underflow -> S s).
 
   Lemma in_mempool_presW sc t tx : P t -> P (snd (in_mempool sc t tx)).
   Proof. intros H. unfold in_mempool. cbn [snd]. eapply (sw_frame P HW); [|exact H]. repeat split. Qed.
@@ -1689,48 +1701,48 @@ Section W.
     - intros Hc. discriminate.
   Qed.
 
-  Lemma handle_breach_presW sc t uuid d p : P t -> pres P (r_handle_breach sc t uuid d p).
+  Lemma handle_breach_presW sc t uuid d p : P t -> pres2 P S (r_handle_breach sc t uuid d p).
   Proof.
     intros H. unfold r_handle_breach.
     destruct (ti_get (r_index t) p) as [bh|].
-    - destruct (ti_get_height (r_index t) bh) as [z|] eqn:Ez; cbn [bind pres]; [|exact I].
+    - destruct (ti_get_height (r_index t) bh) as [z|] eqn:Ez; cbn [bind pres2]; [|apply HSite; discriminate].
       cbn [status_accepted]. apply add_tracker_presW; [exact H|].
       intros h Eh. inversion Eh. left. eauto.
     - pose proof (in_mempool_presW sc t p H) as H1.
       destruct (in_mempool sc t p) as [inm t1]. cbn [snd] in H1.
       destruct inm.
-      + cbn [bind pres status_accepted]. apply add_tracker_presW; [exact H1|]. intros h Eh. discriminate.
+      + cbn [bind pres2 status_accepted]. apply add_tracker_presW; [exact H1|]. intros h Eh. discriminate.
       + pose proof (sw_send P HW sc t1 p H1) as H2.
-        destruct (send_transaction sc t1 p) as [s t2] eqn:Es. cbn [snd] in H2. cbn [bind pres].
+        destruct (send_transaction sc t1 p) as [s t2] eqn:Es. cbn [snd] in H2. cbn [bind pres2].
         destruct (status_accepted s); [|exact H2].
         apply add_tracker_presW; [exact H2|]. intros h Eh. subst s. right. exists p.
         eapply send_confirmed_memo. exact Es.
   Qed.
 
-  Lemma breach_uuid_loop_presW sc d us : forall t inv, P t -> pres P (breach_uuid_loop sc d us t inv).
+  Lemma breach_uuid_loop_presW sc d us : forall t inv, P t -> pres2 P S (breach_uuid_loop sc d us t inv).
   Proof.
     induction us as [|uuid us IH]; intros t inv H; cbn [breach_uuid_loop]; [exact H|].
-    destruct (find_app (db_apps t) uuid) as [a|]; [|exact I].
+    destruct (find_app (db_apps t) uuid) as [a|]; [|apply HSite; discriminate].
     destruct (decrypt (a_blob a) d) as [p|]; [|apply IH; exact H].
-    apply pres_bind; [apply handle_breach_presW; exact H|].
+    apply pres2_bind; [apply handle_breach_presW; exact H|].
     intros s t1 H1. apply IH. exact H1.
   Qed.
 
-  Lemma breach_loop_presW sc ds : forall t inv, P t -> pres P (breach_loop sc ds t inv).
+  Lemma breach_loop_presW sc ds : forall t inv, P t -> pres2 P S (breach_loop sc ds t inv).
   Proof.
     induction ds as [|d ds IH]; intros t inv H; cbn [breach_loop]; [exact H|].
-    apply pres_bind; [apply breach_uuid_loop_presW; exact H|].
+    apply pres2_bind; [apply breach_uuid_loop_presW; exact H|].
     intros inv' t1 H1. apply IH. exact H1.
   Qed.
 
-  Lemma w_block_connected_presW sc t b h : P t -> pres P (w_block_connected sc t b h).
+  Lemma w_block_connected_presW sc t b h : P t -> pres2 P S (w_block_connected sc t b h).
   Proof.
     intros H. unfold w_block_connected.
-    destruct (ti_update (w_cache t) b) as [c|]; [|exact I].
-    apply pres_bind; [apply breach_loop_presW; eapply (sw_frame P HW); [|exact H]; repeat split|].
-    intros inv t2 H2. apply pres_bind.
-    - destruct inv; [exact H2|]. unfold gk_delete_appointments. cbn [pres]. apply (sw_delete P HW). exact H2.
-    - intros _ t3 H3. cbn [pres]. eapply (sw_frame P HW); [|exact H3]. repeat split.
+    destruct (ti_update (w_cache t) b) as [c|]; [|apply HSite; discriminate].
+    apply pres2_bind; [apply breach_loop_presW; eapply (sw_frame P HW); [|exact H]; repeat split|].
+    intros inv t2 H2. apply pres2_bind.
+    - destruct inv; [exact H2|]. unfold gk_delete_appointments. cbn [pres2]. apply (sw_delete P HW). exact H2.
+    - intros _ t3 H3. cbn [pres2]. eapply (sw_frame P HW); [|exact H3]. repeat split.
   Qed.
 End W.
 
@@ -1747,7 +1759,7 @@ Qed.
 Lemma w_block_connected_users sc t b h t' :
   w_block_connected sc t b h = Ok tt t' -> gk_users t' = gk_users t /\ db_users t' = db_users t.
 Proof.
-  intros E. pose proof (w_block_connected_presW _ (users_stableW (gk_users t) (db_users t)) sc t b h (conj eq_refl eq_refl)) as H.
+  intros E. pose proof (w_block_connected_presW _ (users_stableW (gk_users t) (db_users t)) (fun _ => True) (fun _ _ => I) sc t b h (conj eq_refl eq_refl)) as H.
   rewrite E in H. exact H.
 Qed.
 
@@ -1825,7 +1837,7 @@ Proof.
       - intros sc0 a x Ha. destruct (send_spec sc0 a x) as [m [l [Es _]]]. rewrite Es. exact Ha.
       - intros a us Ha. exact Ha.
       - intros a k Ha _ _ _. exact Ha. }
-    specialize (Hp HS sc tg (cache_block hash txs) (gk_height t + 1) eq_refl). rewrite Ew in Hp. exact Hp. }
+    specialize (Hp HS (fun _ => True) (fun _ _ => I) sc tg (cache_block hash txs) (gk_height t + 1) eq_refl). rewrite Ew in Hp. exact Hp. }
   exists out, tw. split; [exact Eo|]. split; [exact HIw|]. split; [congruence|]. split; [exact Er|]. split.
   - intros u. rewrite Hg, Hwg, Hgu. change (gk_users (set_rpc_log t [])) with (gk_users t).
     destruct (memN u out); reflexivity.
@@ -1839,7 +1851,7 @@ Qed.
 Lemma handle_breach_users sc t uuid d p s t' :
   r_handle_breach sc t uuid d p = Ok s t' -> gk_users t' = gk_users t /\ db_users t' = db_users t.
 Proof.
-  intros E. pose proof (handle_breach_presW _ (users_stableW (gk_users t) (db_users t)) sc t uuid d p (conj eq_refl eq_refl)) as H.
+  intros E. pose proof (handle_breach_presW _ (users_stableW (gk_users t) (db_users t)) (fun _ => True) (fun _ _ => I) sc t uuid d p (conj eq_refl eq_refl)) as H.
   rewrite E in H. exact H.
 Qed.
 
